@@ -31,7 +31,7 @@ CLAIMED = {
          "deterministic simulation with fault injection: stored-medium faults on seeded documents x seeded caller programs x simulated Source delivery, isolated worker processes with write-ahead cases and resource watchdogs",
          "DESIGN.md section 3 C06 and section 7"),
  "C19": ("fault_enumeration",
-         "Seeded simulation of the io.Reader/io.Writer seams: for every generated document, every two-chunk split point, byte-at-a-time and seeded chunk plans are compared with whole delivery; a read failure is injected at every byte offset and a write failure at every Write call (sticky/transient; nothing, a prefix or all of the data accepted; several error identities). Exhaustive over fault positions per document; the document space is sampled from VERIF_SEED.",
+         "Seeded simulation of the io.Reader/io.Writer seams: for every generated document, every two-chunk split point, byte-at-a-time and seeded chunk plans are compared with whole delivery; a read failure is injected at every byte offset (sticky/transient, with/without data, four error identities) and a write failure at every Write call of nine writer configurations (sticky/transient; nothing, a prefix or all of the data accepted; three error identities); a seekable source is one more delivery; one index in 16 adds values of 4 KiB..200 000 bytes under large-chunk plans. Exhaustive over fault positions per document up to 600 bytes / 600 write calls; the document space is sampled from VERIF_SEED.",
          "Reference outcome is ion-go's own traversal over whole delivery; Go runtime and bufio trusted; strict reading of R2 (every fired read failure, one-time ones included, must be reported).",
          "deterministic simulation with fault injection: simulated Source/Sink, per-byte read-fault and per-call write-fault enumeration, explicit replay cases",
          "DESIGN.md section 3 C19"),
@@ -41,8 +41,8 @@ CLAIMED = {
          "deterministic simulation: seeded caller programs as the schedule, reference-cursor model, simulated Source delivery plans",
          "DESIGN.md section 3 C08 and section 7"),
  "C07": ("fault_enumeration",
-         "On every generated valid document: truncation at every byte offset (torn tail of a crashed producer) and an enumerated catalogue of stored-medium / malformed-producer corruptions at every applicable site found through the renderer's byte map; a damaged stream is judged only when byte map / edit intent and the independent reference decoder agree it is certainly invalid; it is then traversed completely under whole and byte-at-a-time simulated delivery and must end in a non-nil, permanent error. Exhaustive per document up to 1500 bytes; longer documents get 600 sampled truncation offsets and 400 sampled catalogue edits.",
-         "Trusted: renderer byte maps and ref/bin, ref/text (two independent witnesses for invalidity); lenient reading of 'non-nil Err'.",
+         "On every generated valid document: truncation at every byte offset (torn tail of a crashed producer) and an enumerated catalogue of stored-medium / malformed-producer corruptions at every applicable site found through the renderer's byte map; a damaged stream is judged only when byte map / edit intent and the independent reference decoder agree it is certainly invalid; it is then traversed completely under whole and byte-at-a-time simulated delivery and must end in a non-nil, permanent error. Correctly framed binary values that are malformed in themselves (timestamp fraction not below one, float of an impossible size, a day its month does not have) are appended as well. Exhaustive per document up to 1500 bytes; longer documents get 600 sampled truncation offsets and 400 sampled catalogue edits.",
+         "Trusted: renderer byte maps and ref/bin, ref/text (two independent witnesses for invalidity); 'non-nil Err' is read leniently: an error returned by StepIn / StepOut / an accessor counts. One known finding (malformed bytes inside a value that the reader of a local symbol table ignores) is listed in known_findings.json with a pinned witness.",
          "deterministic simulation with fault injection: exhaustive per-document truncation and corruption catalogue on the stored medium, simulated Source delivery, independent invalidity oracle",
          "DESIGN.md section 3 C07"),
  "C10": ("exploration",
